@@ -568,14 +568,14 @@ void wm_arm(void)
 {
 	if (mprotect(wm_data_begin, wm_data_end - wm_data_begin, PROT_READ))
 		v_broken("wm_arm mprotect data: %s", strerror(errno));
-	if (wm_bss_end > wm_bss_begin && mprotect(wm_bss_begin, wm_bss_end - wm_bss_begin, PROT_READ))
+	if ((uintptr_t)wm_bss_end > (uintptr_t)wm_bss_begin && mprotect(wm_bss_begin, wm_bss_end - wm_bss_begin, PROT_READ))
 		v_broken("wm_arm mprotect bss");
 	wm_armed = 1;
 }
 void wm_disarm(void)
 {
 	mprotect(wm_data_begin, wm_data_end - wm_data_begin, PROT_READ | PROT_WRITE);
-	if (wm_bss_end > wm_bss_begin)
+	if ((uintptr_t)wm_bss_end > (uintptr_t)wm_bss_begin)
 		mprotect(wm_bss_begin, wm_bss_end - wm_bss_begin, PROT_READ | PROT_WRITE);
 	wm_armed = 0;
 }
